@@ -138,3 +138,21 @@ fn c02_special_characters_are_literal_text() {
     assert!(cases > 20000, "{cases}");
     assert!(mismatches.is_empty(), "{} (capped) of {} cases differ from the reference; first ones: {:#?}", mismatches.len(), cases, &mismatches[..mismatches.len().min(12)]);
 }
+
+/// OBL C02.match.host_then_port_or_query
+#[test]
+fn c02_remainder_after_host_may_start_with_a_port_or_query() {
+    // KNOWN FINDING (known_findings.json): "'||host' pins the match to the request hostname ... with the remainder matching directly after that
+    // host": in `||example.com:8080^` the host is example.com and the remainder is `:8080^`; the parser takes everything up to the first
+    // `/`, `^` or `*` as the host (`example.com:8080`), which no request hostname ever equals
+    let mut bad = vec![];
+    for (rule, url) in [("||example.com:8080^", "https://example.com:8080/x"), ("||example.com:8080/x", "https://example.com:8080/x"), ("||example.com?a", "https://example.com?a=1")] {
+        let f = NetworkFilter::parse(rule, true, Default::default()).unwrap();
+        let req = Request::new(url, "https://src.test/", "script").unwrap();
+        if !f.matches(&req, &mut RegexManager::default()) { bad.push(format!("`{rule}` does not match {url}")); }
+    }
+    // control: the port-less spelling matches
+    let f = NetworkFilter::parse("||example.com^", true, Default::default()).unwrap();
+    assert!(f.matches(&Request::new("https://example.com:8080/x", "https://src.test/", "script").unwrap(), &mut RegexManager::default()));
+    assert!(bad.is_empty(), "{:?}", bad);
+}
